@@ -93,4 +93,177 @@ def check_C08(tier, seed, replay=None):
     return v.finish()
 
 
-CHECKS = {"C08": check_C08}
+# ---------------------------------------------------------------------------
+# reference-equality family (C01..C06): engine vs reference engine on generated
+# cases, known findings classified by the guards computed in harness/classify.go
+
+SKIP_TAGS = {"topk-tie"}   # the reference engine itself is not a function of its inputs there
+
+
+def known_by_tag(prop):
+    return {f["tag"]: f for f in load_known() if f.get("status") == "open" and prop in f.get("properties", [])}
+
+
+def classify_failures(prop, v, fails, crashes, max_replays=5):
+    """Attributes failing cases to known findings (by guard tag) or reports them."""
+    known = known_by_tag(prop)
+    hits, new, skipped = {}, [], 0
+    for r in fails:
+        tags = r.get("tags") or []
+        if any(t in SKIP_TAGS for t in tags):
+            skipped += 1
+            continue
+        kt = [t for t in tags if t in known]
+        if kt:
+            for t in kt[:1]:
+                hits.setdefault(t, []).append(r)
+        else:
+            new.append(r)
+    for t, rs in sorted(hits.items()):
+        f = known[t]
+        v.known_finding("%s [%s] %s (%d cases this run, e.g. %s)" % (f["id"], t, f["what"], len(rs), rs[0]["query"][:80]))
+    for r in new[:max_replays]:
+        path = write_replay(prop, "%s_case%d" % (r.get("mode", "x"), r["id"]), {"kind": "direct-oracle", "case": r})
+        v.violation(path)
+    for c in crashes[:max_replays]:
+        path = write_replay(prop, "crash%d" % c["id"], {"kind": "process-crash", "case": c})
+        v.violation(path)
+    return {t: len(rs) for t, rs in hits.items()}, len(new), skipped
+
+
+def run_ref_sweeps(hbin, wd, seed, plan):
+    """plan: list of (profile, n). Returns results, crashes, stats."""
+    from vcheck import sweep
+    allres, allcr, stats = [], [], {}
+    for profile, n in plan:
+        res, cr = sweep(hbin, "diff", ["--mode", "ref", "--profile", profile, "--seed", str(seed), "--dump-failing", wd], n, wd,
+                        "ref_" + (profile or "full"))
+        for r in res:
+            r["profile"] = profile
+        allres += res
+        allcr += cr
+        stats[profile or "full"] = {
+            "cases": len(res), "native": sum(1 for r in res if r.get("path") == "native"),
+            "nontrivial": sum(1 for r in res if r.get("nontrivial")),
+            "failing": sum(1 for r in res if r.get("fail")),
+            "steps_gt_batch": sum(1 for r in res if r.get("steps", 0) > 10),
+            "instant": sum(1 for r in res if r.get("steps", 0) == 1),
+        }
+    return allres, allcr, stats
+
+
+def replay_witnesses(hbin, wd, prop):
+    """Known findings must still fail on their witness; reports stale entries."""
+    notes = []
+    for f in load_known():
+        if f.get("status") != "open" or prop not in f.get("properties", []) or "witness" not in f:
+            continue
+        w = f["witness"]
+        out = os.path.join(wd, "report_witness_%s.jsonl" % f["id"])
+        if os.path.exists(out):
+            os.remove(out)
+        from vcheck import VERIF
+        run([hbin, "diff", "--mode", w.get("mode", "ref"), "--replay", os.path.join(VERIF, w["case_file"]), "--out", out],
+            timeout=120, check=False)
+        ok = False
+        try:
+            for line in open(out):
+                r = json.loads(line)
+                if r.get("kind") == "done" and r.get("fail") and f["tag"] in (r.get("tags") or []):
+                    ok = True
+        except (OSError, ValueError):
+            pass
+        if not ok:
+            notes.append("STALE-FINDING %s: its witness %s no longer fails with tag %s" % (f["id"], w["case_file"], f["tag"]))
+    return notes
+
+
+def ref_family_check(prop, tier, seed, plan_quick, plan_thorough, corr=None, design="", extra_assumptions=None):
+    t0 = time.time()
+    v = Verdict(prop)
+    hbin, _ = build_harness()
+    ob, ob_fails = obligations(prop, hbin)
+    wd = _workdir(prop)
+    plan = plan_thorough if tier == "thorough" else plan_quick
+
+    corr_info = {"model": "none for this property yet"}
+    corr_bad = []
+    if corr is not None:
+        corr_info, corr_bad = corr(hbin, wd, tier, seed)
+
+    res, crashes, stats = run_ref_sweeps(hbin, wd, seed, plan)
+    fails = [r for r in res if r.get("fail")]
+    hits, n_new, skipped = classify_failures(prop, v, fails, crashes)
+    for note in replay_witnesses(hbin, wd, prop):
+        log(note)
+
+    if not v.violations:
+        if corr_bad:
+            path = write_replay(prop, "correspondence", {"kind": "correspondence", "what": corr_info.get("model"),
+                                                         "note": "model and implementation disagree; the direct oracle found no failing input",
+                                                         "cases": corr_bad[:10]})
+            v.violation(path, no_input=True)
+        _obligation_failures(prop, v, ob_fails)
+
+    evals = len(res)
+    distinct = len({(r["query"], r["window"]["Start"], r["window"]["Step"], r["n_series"]) for r in res if r.get("nontrivial")})
+    samples = [{k: r.get(k) for k in ("query", "window", "lookback_ms", "query_lookback_ms", "gomaxprocs", "n_series", "path", "steps")}
+               for r in res[:: max(1, len(res) // 8)]][:8]
+    cov = {
+        "obligations": ob["obligations"], "discharged": ob["discharged"],
+        "checker_cmd": "make -C coq -f Makefile.coq (full .vo build) ; coqc Props/%s.v (Print Assumptions) ; coqc cases_%s_*.v (vm_compute)" % (prop, prop),
+        "trusted_base": TRUSTED_BASE,
+        "theorems": ob["theorems"], "closed_under_global_context": ob["closed_under_global_context"],
+        "primitive_assumptions": ob["primitive_assumptions"],
+        "evaluations": evals, "distinct_nontrivial": distinct,
+        "rule": "cases = (dataset, query, window, lookback, GOMAXPROCS) from one PRNG state (VERIF_SEED, case id), generator profiles %s; "
+                "non-trivial = the reference engine returns a non-empty result or an error; distinct by (query, window, series count)"
+                % [p or "full" for p, _ in plan],
+        "samples": samples,
+        "correspondence": corr_info,
+        "search": {"oracle": "engine result == reference engine result (type, label sets, timestamps, values within 1e-9 relative, error parity)",
+                   "per_profile": stats, "failing_cases": len(fails), "attributed_to_known_findings": hits,
+                   "skipped_reference_nondeterministic": skipped, "new_violations": n_new, "process_crashes": len(crashes)},
+        "known_findings_printed": v.known,
+    }
+    write_evidence(prop, tier, seed, cov, time.time() - t0, len(v.violations),
+                   ["the reference engine (Prometheus v0.40.1 from the module cache) is the oracle",
+                    "values compared with relative tolerance 1e-9 (floating-point summation order)"] + (extra_assumptions or []))
+    return v.finish()
+
+
+def corr_selector(hbin, wd, tier, seed):
+    """C02: the real engine on selector queries vs Select.v/Shard.v/Exec.v evaluated inside Coq."""
+    shards, per = (16, 8) if tier == "quick" else (32, 40)
+    files, total, nontriv = [], 0, 0
+
+    def gen(i):
+        out = os.path.join(wd, "cases_C02_%d.v" % i)
+        p = run([hbin, "selcases", "--seed", str(seed), "--from", str(i * per), "--to", str((i + 1) * per), "--out", out], timeout=600)
+        return out, json.loads(p.stdout.strip().splitlines()[-1])
+
+    from concurrent.futures import ThreadPoolExecutor
+    with ThreadPoolExecutor(max_workers=16) as ex:
+        outs = list(ex.map(gen, range(shards)))
+    for out, st in outs:
+        files.append(out)
+        total += st["cases"]
+        nontriv += st["series_with_points"]
+    res = eval_case_files(files)
+    bad = []
+    for r in res:
+        if not r["ok"]:
+            bad.append({"file": r["file"], "error": r["log"][-800:]})
+        else:
+            bad += [{"file": r["file"], "case": i} for i in r["bad"]]
+    info = {"model": "Shard.sharded_selector + Exec.matrix_of (+ Exec.step_invariant_run for @) vs the engine on selector queries",
+            "cases": total, "series_with_points": nontriv, "shards": shards, "disagreements": len(bad)}
+    return info, bad
+
+
+def check_C02(tier, seed, replay=None):
+    return ref_family_check("C02", tier, seed, [("selector", 3000), ("selpair", 1500)],
+                            [("selector", 60000), ("selpair", 30000)], corr=corr_selector)
+
+
+CHECKS = {"C08": check_C08, "C02": check_C02}
